@@ -180,8 +180,10 @@ Section ScanModel.
         else []
     | None => []
     end.
-  Record ist := mk_ist { i_st : sst; i_proc : list path; i_new : list path; i_re : list path }.
-  Definition visit_file (x : ist) (F : path) : ist :=
+  Record ist := mk_ist { i_st : sst; i_proc : list path; i_new : list path; i_re : list path; i_rev : list path }.
+  (** [fixed]: since fix 92543e7 a module that is marked as a plugin file after its own
+      imports were walked is walked once more ([i_rev]) *)
+  Definition visit_file (fixed : bool) (x : ist) (F : path) : ist :=
     if mem_path F (i_proc x) then x else
     let proc := F :: i_proc x in
     let importer_plugin := mem_path F (ss_plugin (i_st x)) in
@@ -191,21 +193,23 @@ Section ScanModel.
                  let do_mark := importer_plugin && hands_on && negb (mem_path t (ss_plugin st)) in
                  let st' := if do_mark then mark t st else st in
                  let re := if do_mark && mem_path t (ss_cached st) then add_path t (i_re x) else i_re x in
+                 let rev := if fixed && do_mark && mem_path t (i_proc x) then add_path t (i_rev x) else i_rev x in
                  let new := if negb (mem_path t (i_proc x)) && negb (mem_path t (ss_cached st)) then add_path t (i_new x) else i_new x in
-                 mk_ist st' (i_proc x) new re)
-              (targets (i_st x) F) (mk_ist (i_st x) proc (i_new x) (i_re x)).
-  (** [None]: out of fuel (excluded by the theorems' statements; never seen by the check) *)
-  Fixpoint import_rounds (fuel : nat) (st : sst) (proc to_check re : list path) : option (sst * list path) :=
+                 mk_ist st' (i_proc x) new re rev)
+              (targets (i_st x) F) (mk_ist (i_st x) proc (i_new x) (i_re x) (i_rev x)).
+  (** [None]: out of fuel (excluded by the theorems; Proofs/ScanImports.v shows it unreachable) *)
+  Fixpoint import_rounds (fixed : bool) (fuel : nat) (st : sst) (proc to_check re : list path) : option (sst * list path) :=
     match fuel with
     | O => None
     | S f =>
         match to_check with
         | [] => Some (st, re)
         | _ =>
-            let x := fold_left visit_file to_check (mk_ist st proc [] re) in
-            match i_new x with
-            | [] => Some (i_st x, i_re x)
-            | new => import_rounds f (fold_left (fun st p => analyse p st) new (i_st x)) (i_proc x) new (i_re x)
+            let x := fold_left (visit_file fixed) to_check (mk_ist st proc [] re []) in
+            match i_new x, i_rev x with
+            | [], [] => Some (i_st x, i_re x)
+            | new, rev => import_rounds fixed f (fold_left (fun st p => analyse p st) new (i_st x))
+                                        (filter (fun p => negb (mem_path p rev)) (i_proc x)) (new ++ rev) (i_re x)
             end
         end
     end.
@@ -214,8 +218,10 @@ Section ScanModel.
                      || (match sp with Some p => starts_with F p | None => false end)
                      || existsb (fun r => starts_with F r) editable_roots
                      || mem_path F (ss_plugin st)) (ss_cached st).
-  Definition import_scan_opt (st : sst) : option sst :=
-    match import_rounds (S (S (length fd))) st [] (seed_files st) [] with Some (st', _) => Some st' | None => None end.
+  Definition import_scan_with (fixed : bool) (st : sst) : option sst :=
+    match import_rounds fixed (S (S (length fd + length fd))) st [] (seed_files st) [] with Some (st', _) => Some st' | None => None end.
+  Definition import_scan_opt := import_scan_with true.
+  Definition import_scan_old := import_scan_with false.
   Definition import_scan (st : sst) : sst := match import_scan_opt st with Some st' => st' | None => st end.
 
   (** the whole scan after phase 2; [selected] = the test / conftest files phase 1 found *)
